@@ -2,3 +2,4 @@
 import DoviModel.Props.C13
 import DoviModel.Props.C01
 import DoviModel.Props.C02
+import DoviModel.Props.C15
